@@ -1,6 +1,8 @@
 """C07 - gate modifiers (dagger, controlled, power, exp) mean what they say."""
 from fractions import Fraction
 
+import math
+
 import numpy as np
 import scipy.linalg as sl
 import sympy
@@ -296,8 +298,11 @@ def reparam_cases(draw, tier):
     if kinds.count("exp") > 1:
         kinds = [k for k in kinds if k != "exp"] + ["exp"]
     pool = ["RX", "RY", "GPi2", "XX", "YY", "MS"] if "exp" in kinds else ["RX", "RY", "RZ", "PHASE", "GPi", "GPi2", "RH", "U3", "XX", "ZZ", "CPHASE", "XY", "MS"]
+    # user-defined parametric gates (not under exp: sympy cost) next to the built-in families
+    if "exp" not in kinds:
+        pool = pool + ["cs:rot", "cs:ph2", "cs:u2", "cs:mix", "cs:ph2"]
     nm = draw(st.sampled_from(pool))
-    k = cgen.TABLE[nm][0]
+    k = cgen.SYM_TEMPLATE_ARITY[nm[3:]][0] if nm.startswith("cs:") else cgen.TABLE[nm][0]
     mods = []
     for kd in kinds:
         m = draw(_mod(kd, 4 - k))
@@ -305,17 +310,30 @@ def reparam_cases(draw, tier):
             k += m[1]
         if m[0] == "pow" and (m[1] < 0 and (k >= 3 or nm == "U3" or any(x[0] == "pow" for x in mods)) or sum(1 for x in mods if x[0] == "pow") >= 1 and nm == "U3"):
             m = ["pow", 2]
+        if m[0] == "pow" and nm.startswith("cs:"):
+            m = ["dag"]  # powers of matrices with unevaluated exp(i x) entries are where sympy spends minutes
         mods.append(m)
-    np_ = cgen.TABLE[nm][1]
+    np_ = cgen.SYM_TEMPLATE_ARITY[nm[3:]][1] if nm.startswith("cs:") else cgen.TABLE[nm][1]
     tuples = [[draw(cgen.angles()) for _ in range(np_)] for _ in range(draw(st.integers(2, 3)))]
+    if "exp" not in kinds and draw(st.integers(0, 2)) == 0:
+        # (not under exp: sympy's matrix exponential can take minutes on the degenerate matrices these values give)
+        # start from special parameter values (all zero, or pi): the gate may be the identity / self-adjoint there and only there
+        tuples[0] = [draw(st.sampled_from([0.0, 0.0, 0, math.pi]))] * np_
     bindable = all(m[0] in ("dag", "c") for m in mods)
     return {"g": nm, "mods": mods, "tuples": tuples, "reads": [draw(st.booleans()) for _ in tuples],
             "how": [draw(st.sampled_from(["replace", "bind"] if bindable else ["replace"])) for _ in tuples]}
 
 
+def _reparam_spec(nm, ps, mods):
+    if nm.startswith("cs:"):
+        t = nm[3:]
+        return {"g": "customsym", "t": t, "f": ["fa", "fb", "fc"][: cgen.SYM_TEMPLATE_ARITY[t][1]], "p": ps, "mods": mods}
+    return {"g": nm, "p": ps, "mods": mods}
+
+
 def o_reparam(spec):
     nm, mods = spec["g"], spec["mods"]
-    g = cgen.build_gate({"g": nm, "p": spec["tuples"][0], "mods": mods})
+    g = cgen.build_gate(_reparam_spec(nm, spec["tuples"][0], mods))
     syms = [sympy.Symbol("s%d" % i) for i in range(len(spec["tuples"][0]))]
     read_before = False
     nt = False
@@ -330,18 +348,18 @@ def o_reparam(spec):
                 g = must(lambda: g.replace_params(tuple(ps)), "replace_params")
             nt = nt or read_before
         require(tuple(float(x) for x in g.params) == tuple(float(x) for x in ps), lambda: f"params {g.params} after re-parametrising with {ps}")
-        fresh = cgen.build_gate({"g": nm, "p": ps, "mods": mods})
+        fresh = cgen.build_gate(_reparam_spec(nm, ps, mods))
         require(must(lambda: g == fresh, "gate =="), lambda: f"re-parametrised gate {g} != modifiers applied to the gate built with the new parameters {fresh}")
         if spec["reads"][i] or i == len(spec["tuples"]) - 1:
             A = must(lambda: _npm(g), f"matrix of {g}")
-            R = cgen.ref_gate_matrix({"g": nm, "p": ps, "mods": mods})
+            R = cgen.ref_gate_matrix(_reparam_spec(nm, ps, mods))
             if not np.all(np.isfinite(A)):
                 return {"inconclusive": "non-finite"}
             tol = 1e-7 * max(1.0, float(np.max(np.abs(R))))
             require(A.shape == R.shape and np.allclose(A, R, atol=tol),
                     lambda: f"{g} obtained by {spec['how'][i]} (step {i}) has the matrix of other parameters: differs from its definition by {ref.maxdiff(A, R):.3g}")
             read_before = True
-    return {"classes": ["with_exp"] if any(m[0] == "exp" for m in mods) else [], "nontrivial": nt}
+    return {"classes": (["with_exp"] if any(m[0] == "exp" for m in mods) else []) + (["user_defined_parametric"] if nm.startswith("cs:") else []), "nontrivial": nt}
 
 
 PAIRS = ["pair:%s>%s" % (a, b) for a in KINDS for b in KINDS]
